@@ -20,6 +20,7 @@ limitations under the License.
 package client
 
 import (
+	"bytes"
 	"context"
 	"crypto/ecdsa"
 	"crypto/sha256"
@@ -1164,6 +1165,11 @@ func (c *immuClient) verifiedGet(ctx context.Context, kReq *schema.KeyRequest) (
 	var e *store.EntrySpec
 
 	if vEntry.Entry.ReferencedBy == nil {
+		// the proof is about the requested key: the entry handed to the caller is not said to be another one
+		if !bytes.Equal(vEntry.Entry.Key, kReq.Key) {
+			return nil, store.ErrCorruptedData
+		}
+
 		if kReq.AtTx == 0 {
 			vTx = vEntry.Entry.Tx
 		}
@@ -1171,6 +1177,10 @@ func (c *immuClient) verifiedGet(ctx context.Context, kReq *schema.KeyRequest) (
 		e = database.EncodeEntrySpec(kReq.Key, schema.KVMetadataFromProto(vEntry.Entry.Metadata), vEntry.Entry.Value)
 	} else {
 		ref := vEntry.Entry.ReferencedBy
+
+		if !bytes.Equal(ref.Key, kReq.Key) {
+			return nil, store.ErrCorruptedData
+		}
 
 		if kReq.AtTx == 0 {
 			vTx = ref.Tx
